@@ -183,7 +183,7 @@ func init() {
 	c15async.Profile = Profile{Prop: "C15", ForceExp: true, NoRef: true, Keys: [2]int{2, 6}}
 	c15async.OpW = zeroExcept(map[string]int{"set": 18, "setifabsent": 3, "compute": 4, "invalidate": 5, "get": 6, "advance": 12, "cleanup": 2,
 		"all": 8, "keys": 4, "values": 4, "hottest": 2, "coldest": 2})
-	c15async.Resize, c15async.AimAdvance = false, true
+	c15async.Resize, c15async.AimAdvance, c15async.IterDuel = false, true, true
 	Props["C15"].Engines = append(Props["C15"].Engines, &concEngine{opts: &c15async})
 	// C10 (concurrent half): loads, bulk loads and waiters on one to three keys; what a Get or
 	// BulkGet returns is cached when it returns (linearizability with the finished-load rule for
